@@ -387,6 +387,12 @@ def inject(f, k, d, rng):
         nlk = sd.get('line_endings') or 'unix'
         t = rng.choice(['{', '{"a": }', 'nope', '{"a": 1,}', "{'a': 1}", '{"a": 1} x', '[1, 2'])
         body = spec.bomfree(t + ('\n' if nlk == 'unix' else '\r\n'), enc)
+        if (rng.random() < 0.4 or enc is None) and (enc is None or enc.lower().replace('_', '-') in ('utf-8', 'utf8', 'ascii', 'us-ascii')):
+            # well-formed JSON text whose BYTES are not text in the encoding in force (or, with none in force, in any
+            # encoding JSON allows): a Latin-1 letter, a lone continuation byte, an overlong form, a truncated sequence
+            raw = rng.choice([b'{"author": "Andr\xe9"}', b'{"a": "\x80"}', b'{"a": "\xc0\xaf"}', b'{"a": "\xe2\x82"}', b'{"\xff": 1}',
+                              b'\xff{"a": 1}', b'{"a": 1}\xfe'])
+            body = raw + (b'\n' if nlk == 'unix' else b'\r\n')
         s['content'] = body.hex()
         setopt('length', str(len(body)))
     return g
